@@ -268,6 +268,32 @@ func c04(tier string, args []string) int {
 			r.Violation("C04/keyring-loads-with-wrong-password", fmt.Sprintf("the BLS keyrings load with the wrong password %q", wp), map[string]string{"password": wp})
 		}
 		_ = m.VerifCloseDB()
+		// the way the operator's program opens the machine (password, then InitKeys - which
+		// generates keys when there are none yet): on a copy of its own, InitKeys may write
+		db2 := world.NewDir("c04db2")
+		if err := copyTree(dbCopy+"/db", db2+"/db"); err != nil {
+			r.Infra("copy db: %v", err)
+		}
+		m2, err := airgapped.NewMachine(db2 + "/db")
+		if err != nil {
+			r.Infra("open copy: %v", err)
+		}
+		m2.SetEncryptionKey([]byte(wp))
+		if err := m2.InitKeys(); err == nil {
+			r.Violation("C04/machine-opens-with-wrong-password", fmt.Sprintf("a stopped machine that has keys opens (InitKeys succeeds) with the wrong password %q", wp), map[string]string{"password": wp})
+		}
+		_ = m2.VerifCloseDB()
+		// and the attempt must not have replaced what the right password protects
+		m3, err := airgapped.NewMachine(db2 + "/db")
+		if err != nil {
+			r.Infra("open copy: %v", err)
+		}
+		m3.SetEncryptionKey([]byte(pw))
+		if err := m3.LoadKeysFromDB(); err != nil {
+			r.Violation("C04/wrong-password-attempt-damages-keys", fmt.Sprintf("after an attempt to open the machine with the wrong password %q its keys no longer load with the right one: %v", wp, err), map[string]string{"password": wp})
+		}
+		_ = m3.VerifCloseDB()
+		os.RemoveAll(db2)
 	}
 	// the same machine instance after the password expired / was replaced by a wrong one: the
 	// shares must not stay usable (a signing operation must fail, keyrings must not load)
